@@ -2,7 +2,8 @@
    All functions named nary_* are slices of sc_notify_recursive_nary GENERATED from /repo (Gen/NotifyC01.v). *)
 From Coq Require Import ZArith List Bool.
 From Coq Require Import Permutation Lia.
-From ScV Require Import Base.CInt Gen.NotifyC01 C01.NaryArith C01.NaryDelivery C01.MergeModel C01.MergeProofs C01.MergeCorr Gen.Consts C18.MacroProofs C01.BinaryArith MPI.Prog C01.NotifyProgs C01.NotifyProgProofs C01.RecordOps C01.BinaryRound C01.NaryRound C01.NaryCore C01.PexRound C01.NbxProofs.
+From ScV Require Import Base.CInt Gen.NotifyC01 C01.NaryArith C01.NaryDelivery C01.MergeModel C01.MergeProofs C01.MergeCorr Gen.Consts C18.MacroProofs C01.BinaryArith MPI.Prog C01.NotifyProgs C01.NotifyProgProofs C01.RecordOps C01.BinaryRound C01.NaryRound C01.NaryCore C01.PexRound C01.NbxProofs C01.RangesRound C01.SupersetProofs.
+From ScV Require C15.RangesModel C15.RangesDecode.
 Import ListNotations.
 Local Open Scope Z_scope.
 
@@ -452,3 +453,61 @@ Proof.
   cbv zeta. split; [vm_compute; reflexivity|]. unfold replies1, replies2. cbn [flat_map app poll_reply].
   apply ex_testall_more; [reflexivity|]. apply ex_testall_sent; [discriminate|]. apply ex_test_more; [reflexivity|]. apply ex_test_done. discriminate.
 Qed.
+
+(* ---- ranges (sc_ranges_adaptive + sc_ranges_decode + point-to-point), about the co-simulated program ranges_core --------------
+   Composition with the C15 development: gtbl P R nr is C15's adaptive_all table for the vectors procs of all ranks
+   (procs[q] = position + 1 of q in the receiver list), rcv / snds its decoded receivers / senders (C15 model functions,
+   used as such by the program).  All receives name their source; by C15's decode symmetry (C15_decode_symmetric) rank q
+   sends to me iff me receives from q.  The ranges may contain ranks that are not listed (over-approximation): they get
+   flag 0 and are dropped; the result is exactly the transposed pattern (hp: with the items). *)
+Theorem C01_ranges_round_semantics : forall (coll : Z -> list payload -> Z -> payload),
+  (forall cs r, coll K_ALLREDUCE_MAX cs r =
+     [RangesModel.allreduce_max (map (fun c => nth 0 c 0) cs); RangesModel.allreduce_max (map (fun c => nth 1 c 0) cs)]) ->
+  (forall cs r, coll K_ALLGATHER cs r = concat cs) ->
+  forall P (R : Z -> list Z) (pay : Z -> Z -> payload) (hp : bool) sz nr, 0 < P -> 1 <= nr ->
+  (forall f, 0 <= f < P -> ssorted (fun x => x) (R f) /\ forall t, In t (R f) -> 0 <= t < P) ->
+  forall me, 0 <= me < P ->
+  let rcv := RangesModel.receivers (gtbl P R nr) me in
+  let snds := RangesModel.senders (gtbl P R nr) me in
+  run ([coll K_ALLREDUCE_MAX (map (contrib1 P R nr) (ranks P)) me; coll K_ALLGATHER (map (contrib2 P R nr) (ranks P)) me]
+         ++ repeat [] (length rcv) ++ map (fun q => q :: rmsg R pay hp sz q me) snds)
+      (ranges_core P me nr (R me) (rep R pay hp me) sz (fun s g => Ret (result s g)))
+  = (Coll K_ALLREDUCE_MAX (-1) (contrib1 P R nr me) :: Coll K_ALLGATHER (-1) (contrib2 P R nr me)
+       :: map (fun q => Send q c_SC_TAG_NOTIFY_RANGES (rmsg R pay hp sz me q)) rcv ++ map (fun q => Recv q c_SC_TAG_NOTIFY_RANGES) snds,
+     Some (result (transpose P R me) (if hp then map (fun s => pay s me) (transpose P R me) else []))).
+Proof. exact ranges_round. Qed.
+Print Assumptions C01_ranges_round_semantics.
+
+(* matching for the point-to-point part: q is a decoded sender of me iff me is a decoded receiver of q *)
+Theorem C01_ranges_matching : forall P (R : Z -> list Z) nr, 0 < P -> 1 <= nr -> forall p q, 0 <= p < P -> p <> q ->
+  (In q (RangesModel.receivers (gtbl P R nr) p) <-> In p (RangesModel.senders (gtbl P R nr) q)).
+Proof. exact ranges_matching. Qed.
+Print Assumptions C01_ranges_matching.
+
+(* ---- superset, about the co-simulated program super_core / super_loop; the callback compute_superset is a parameter ----------
+   EXIT CONDITION: for any reply stream, a loop that returns has seen as many successful polls (TRUE or EXTRA tag) as the
+   callback announced super senders (sexits queue rs), or the model's loop bound was hit *)
+Theorem C01_superset_exit_skeleton : forall (g : list (Z * payload) -> payload) fuel rs queue acc out,
+  snd (run rs (super_loop fuel queue acc (fun got => Ret (g got)))) = Some out ->
+  sexits queue rs \/ In fuel_mark (fst (run rs (super_loop fuel queue acc (fun got => Ret (g got))))).
+Proof. exact super_exit_skeleton. Qed.
+Print Assumptions C01_superset_exit_skeleton.
+
+(* PATTERN INVERSION under the contract of the callback (its super senders = the ranks that list me ++ the ranks xs that
+   contact me only as extra receivers, each once) and the round abstraction (the polls deliver the TRUE messages of the
+   former and the EXTRA messages of the latter, each once, in any order, with any number of empty polls): the result is
+   the transposed pattern - the extra contacts are not reported - with the items behind their senders *)
+Theorem C01_superset_round_semantics : forall P (R : Z -> list Z) (pay : Z -> Z -> payload) (extra : Z -> list Z) (supers : list Z) me (xs : list Z),
+  Permutation supers (transpose P R me ++ xs) ->
+  forall (its : list outcome) (order xorder : list Z) (sorted : bool) (fuel : nat),
+  Permutation order (transpose P R me) -> Permutation xorder xs ->
+  flat_map o_true its = map (fun s => (s, pay s me)) order -> flat_map o_extra its = xorder ->
+  Forall o_nonneg its -> no_trailing_none its -> (length its < fuel)%nat ->
+  let final := if sorted then transpose P R me else order in
+  run (repeat [] (length (R me)) ++ repeat [] (length (extra me)) ++ flat_map o_replies its)
+      (super_core fuel (R me) (Some (map (pay me) (R me))) (extra me) supers sorted (fun s g => Ret (result s g)))
+  = (map (fun r => Send r c_SC_TAG_NOTIFY_SUPER_TRUE (pay me r)) (R me)
+       ++ map (fun q => Send q c_SC_TAG_NOTIFY_SUPER_EXTRA []) (extra me) ++ flat_map o_acts its,
+     Some (result final (map (fun s => pay s me) final))).
+Proof. exact superset_round. Qed.
+Print Assumptions C01_superset_round_semantics.
